@@ -49,10 +49,10 @@ package fstxn
 //@   requires [L2-nolocks] noLocks() @C03 @C06
 //@   allocates fstxn.FsTxn, alloctxn.AllocTxn, jrnl.Op, []uint64, map[uint64]*inode.Inode
 //@   modifies lastst, curop, freshinum, wroteinum, cphase
-//@   ghostset lastst = 0
-//@   ghostset freshinum = empty
-//@   ghostset wroteinum = empty
-//@   ghostset cphase = 0
+//@   ghostexit lastst = 0
+//@   ghostexit freshinum = empty
+//@   ghostexit wroteinum = empty
+//@   ghostexit cphase = 0
 //@   ghostexit curop = base(result)
 //@   ensures fresh(result) && opOpen(result) && result.Fs == fsstate && cphase == 0
 //@   ensures [F5-empty] len(result.Atxn.allocInums) == 0 && len(result.Atxn.freeInums) == 0 && len(result.Atxn.allocBnums) == 0 && len(result.Atxn.freeBnums) == 0 @C05 @C09
@@ -61,6 +61,7 @@ package fstxn
 //@   assume
 //@   requires opInv(op)
 //@   requires [L2-clean] forall i uint64 :: held[i] ==> !dirtyinum[i] @C03 @C09 @C10
+//@   requires [L2-held-through-commit] cphase != 1 || (forall i uint64 :: !wroteinum[i]) @C03 @C14
 //@   modifies held, map[uint64]*inode.Inode
 //@   ensures noLocks() && opShape(op)
 
@@ -218,7 +219,7 @@ package fstxn
 //@ spec (*FsTxn).CommitFh
 //@   props C07 C01 C03
 //@   requires commitReady(op)
-//@   requires [W3-readonly] len(op.Atxn.allocInums) == 0 && len(op.Atxn.freeInums) == 0 && len(op.Atxn.allocBnums) == 0 && len(op.Atxn.freeBnums) == 0 && (forall i uint64 :: held[i] ==> !dirtyinum[i]) @C07
+//@   requires [W3-readonly] len(op.Atxn.allocInums) == 0 && len(op.Atxn.freeInums) == 0 && len(op.Atxn.allocBnums) == 0 && len(op.Atxn.freeBnums) == 0 && (forall i uint64 :: held[i] ==> !dirtyinum[i]) && (forall i uint64 :: !wroteinum[i]) @C07
 //@   preserves [allocInv] allocInv() @C15 @C04
 //@   allocates buf.Buf, addr.Addr, []uint8
 //@   modifies held, lastst, cphase, abits, map[uint64]*inode.Inode
@@ -234,7 +235,7 @@ package fstxn
 //@   requires opInv(op) && curop == base(op) && listsValid(op.Atxn) && dirtyInv()
 //@   requires [A1-once] lastst == 0 || (lastst == 3 && len(op.Atxn.allocInums) == 0 && len(op.Atxn.allocBnums) == 0) @C09 @C05
 //@   requires [A2-rollback] forall i uint64 :: dirtyinum[i] ==> wroteinum[i] @C09 @C10
-//@   requires [A1-not-committed] cphase != 2 @C09 @C05
+//@   requires [A1-not-committed] cphase == 0 @C09 @C05
 //@   preserves [allocInv] allocInv() @C15 @C04
 //@   allocates buf.Buf
 //@   modifies held, lastst, abits, dirtyinum, cache.Cslot.Obj, map[uint64]*inode.Inode
